@@ -261,6 +261,8 @@ pub fn case_strategy() -> BoxedStrategy<LuaCase> {
         1 => Just(String::new()),
         1 => Just("   ".to_string()),
         1 => Just("k = -5".to_string()),
+        1 => Just("ends with ideographic space\u{3000}".to_string()),
+        1 => Just("ends with nbsp\u{a0}\u{a0}".to_string()),
     ];
     let attr = (prop_oneof![Just("data-x"), Just("note"), Just("k_1"), Just("имя")], proptest::string::string_regex("[ -!#-;=?-~é]{0,12}").unwrap()).prop_map(|(k, v)| (k.to_string(), v));
     let block = (proptest::collection::vec(text, 0..6), proptest::collection::vec(attr, 0..3), proptest::option::weighted(0.25, 0u8..5), proptest::bool::weighted(0.3), prop_oneof![3 => Just(0u32), 2 => 0u32..2000, 1 => 0u32..300000], 0u8..6)
